@@ -11,7 +11,7 @@ var ovrCounter int
 func builtinCode(ty, kind string) string {
 	switch ty {
 	case "str":
-		return map[string]string{"gte": "min", "lte": "max", "eq": "len", "min": "min", "max": "max", "len": "len"}[kind]
+		return map[string]string{"gte": "min", "lte": "max", "eq": "len", "min": "min", "max": "max", "len": "len", "nlen": "not_len", "nhas": "not_contained", "has": "contained"}[kind]
 	case "time":
 		return map[string]string{"gt": "after", "lt": "before", "eq": "eq"}[kind]
 	case "slice":
@@ -22,7 +22,7 @@ func builtinCode(ty, kind string) string {
 
 var builtinKinds = map[string][]string{
 	"int": {"gte", "lte", "eq", "gt", "lt"}, "float": {"gte", "lte", "eq", "gt", "lt"},
-	"str": {"gte", "lte", "eq"}, "bool": {"eq"}, "time": {"gt", "lt", "eq"},
+	"str": {"gte", "lte", "eq", "gte", "lte", "eq", "nlen", "nhas", "has"}, "bool": {"eq"}, "time": {"gt", "lt", "eq"},
 }
 var userKinds = map[string][]string{
 	"int": {"gte", "lte", "eq"}, "float": {"gte", "lte", "eq"}, "str": {"gte", "lte", "eq"}, "bool": {"eq"}, "time": {"gte", "lte", "eq"},
@@ -416,6 +416,8 @@ func genParseInput(r *rand.Rand, n *Node, fe string) *Input {
 			return pick(r, []*Input{val(1), blank(), empty(), list(val(1)), bad()})
 		case x < 12:
 			return pick(r, []*Input{missing(), nilIn()})
+		case x < 15 && fe == "map":
+			return leaf("badjson", 0, "nat")
 		}
 		ents := []Ent{}
 		for _, k := range n.Kids {
